@@ -12,7 +12,9 @@
                    `size as i32` in CODE.EXTRACT / CODE.NTH must not be 0 or -1).
    [sem_safe f]  : from a wf state inside the envelope, f does not panic and
                    a normal return is wf again (given that `as i32` on a float
-                   yields an i32: [fo_typed]). *)
+                   yields an i32: [fo_typed]).  [sem_safe0 f]: the same without
+                   the envelope; [table_safe] asks [sem_safe0] of every entry
+                   except CODE.EXTRACT and CODE.NTH. *)
 From Coq Require Import ZArith String List Bool Lia ZifyBool Permutation.
 From PushModel Require Import Base.Sx Base.Machine Base.ListOps Base.F32 Model.Item Model.GraphT Model.State
   Model.InstrBase Model.Registry Model.Interp.
@@ -70,7 +72,22 @@ Section Safe.
     match r with Ok ws => fo_typed -> wf_state (snd ws) | Panic => False | Need _ _ => True end.
   Definition sem_safe (f : sem) : Prop :=
     forall p w s, wf_state s -> envelope s -> ok_ws (f p w s).
-  Definition table_safe (t : list (string * sem)) : Prop := Forall (fun e => sem_safe (snd e)) t.
+  (* the same without the envelope: all instructions but the two below *)
+  Definition sem_safe0 (f : sem) : Prop :=
+    forall p w s, wf_state s -> ok_ws (f p w s).
+  (* the instructions whose bodies depend on the envelope (`size as i32` as a divisor) *)
+  Definition env_names : list string := ["CODE.EXTRACT"%string; "CODE.NTH"%string].
+  Definition needs_env (n : string) : bool := existsb (String.eqb n) env_names.
+  Definition entry_safe (e : string * sem) : Prop :=
+    if needs_env (fst e) then sem_safe (snd e) else sem_safe0 (snd e).
+  Definition table_safe (t : list (string * sem)) : Prop := Forall entry_safe t.
+
+  Lemma sem_safe0_safe f : sem_safe0 f -> sem_safe f.
+  Proof. intros H p w s W _. now apply H. Qed.
+  Lemma entry_safe_safe e : entry_safe e -> sem_safe (snd e).
+  Proof. unfold entry_safe. destruct (needs_env (fst e)); auto using sem_safe0_safe. Qed.
+  Lemma entry_safe_safe0 e : entry_safe e -> needs_env (fst e) = false -> sem_safe0 (snd e).
+  Proof. unfold entry_safe. intros H E. now rewrite E in H. Qed.
 
   Lemma ok_pure (f : instr) p w s : ok_state (f s) -> ok_ws (pure f p w s).
   Proof. unfold pure. destruct (f s); cbn; auto. Qed.
